@@ -158,11 +158,11 @@ def startsWithIf : List Stmt → Bool
   | .ifte _ _ _ :: _ => true
   | _ => false
 
-/-- `has_elseif = o.has_elseif and else_body and isinstance(else_body[0], Conditional)` is handed to the constructor:
-an empty pruned ELSE part makes it `()` (rejected by the strict dataclass), a pruned ELSE part that starts with an IF but has
-more statements violates the constructor's assertion -/
+/-- `has_elseif = bool(o.has_elseif and else_body and isinstance(else_body[0], Conditional))` is handed to the constructor:
+a pruned ELSE part that starts with an IF but has more statements violates the constructor's assertion
+(`len(self.else_body) == 1`).  (Until /repo commit 9f8cf55 an empty pruned ELSE part raised as well: the value was `()`.) -/
 def elseifCrash (e e' : List Stmt) : Bool :=
-  isSingleIf e && (e'.isEmpty || (startsWithIf e' && e'.length != 1))
+  isSingleIf e && (startsWithIf e' && e'.length != 1)
 
 mutual
 /-- the real transformer raises somewhere in this statement (every child is visited, also branches that are dropped) -/
